@@ -98,6 +98,14 @@ Addr(s, uidmode, V, unext) ==
   THEN LET mx == IF V = {} THEN unext ELSE MaxOf(V) IN {u \in V : u \in SetVals(s, mx)}
   ELSE LET n == Cardinality(V) IN {u \in V : Pos(V, u) \in SetVals(s, n)}
 
+\* spelling of sets: S1(x) = "x", SR(a, b) = "a:b", S2(e1, e2) = "e1,e2"
+S1(x)      == <<<<x>>>>
+SR(a, b)   == <<<<a, b>>>>
+S2(e1, e2) == <<e1, e2>>
+\* MOVE into the selected mailbox itself is legal but exotic: the full menu
+\* offers it with three shapes only (it would otherwise be half of all MOVEs)
+SelfMoveShapes == {S1(0), SR(1, 0), S1(1)}
+
 ---------------------------------------------------------------------------
 (* Effects on a world w = [mb, nu] - pure operators, so that MOVE can be   *)
 (* stated twice (directly, and as COPY ; STORE +\Deleted ; UID EXPUNGE).   *)
@@ -223,6 +231,7 @@ Copy(um, s, dest) ==
 \* (UID) MOVE s dest
 Move(um, s, dest) ==
   /\ Turn("move") /\ Count /\ sel # "none"
+  /\ (Profile = "full" /\ dest = sel) => s \in SelfMoveShapes
   /\ LET haslat == ~um /\ OutOfRange(s, View)
          A == Addr(s, um, View, nextuid[sel])
      IN \/ /\ Lenient(haslat)
@@ -272,9 +281,6 @@ Select(b) ==
 (* (3 was expunged): sequence number 3 is UID 4, sequence number 4 is out  *)
 (* of range, UID 3 names an expunged message, 5 is beyond both.            *)
 
-S1(x)      == <<<<x>>>>
-SR(a, b)   == <<<<a, b>>>>
-S2(e1, e2) == <<e1, e2>>
 
 MaxNum == 6
 ElemsAll   == {<<x>> : x \in 0..MaxNum} \cup {<<x, y>> : x, y \in 0..MaxNum}
@@ -288,7 +294,8 @@ StoreMenu ==
   CASE Profile = "q" ->
        { <<FALSE, SR(1, 0), "add", {"D"}, FALSE>>,             \* STORE 1:* +FLAGS (\Deleted)
          <<TRUE,  SR(3, 2), "replace", {"S", "K"}, FALSE>>,    \* UID STORE 3:2 FLAGS (\Seen kw)
-         <<FALSE, S1(4), "remove", {"D", "S"}, TRUE>> }        \* STORE 4 -FLAGS.SILENT (\Deleted \Seen)
+         <<FALSE, S1(4), "remove", {"D", "S"}, TRUE>>,         \* STORE 4 -FLAGS.SILENT (\Deleted \Seen)
+         <<TRUE,  S1(0), "add", {"F", "R"}, FALSE>> }          \* UID STORE * +FLAGS (\Flagged \Recent)
     [] Profile = "t" ->
        { <<FALSE, SR(1, 0), "add", {"D"}, FALSE>>,
          <<TRUE,  SR(3, 2), "replace", {"S", "K"}, FALSE>>,
@@ -305,7 +312,8 @@ StoreMenu ==
 FetchMenu ==
   CASE Profile = "q" ->
        { <<FALSE, S1(1), TRUE>>,                               \* FETCH 1 (BODY[])
-         <<TRUE,  SR(5, 0), FALSE>> }                          \* UID FETCH 5:* (BODY.PEEK[])
+         <<TRUE,  SR(5, 0), FALSE>>,                           \* UID FETCH 5:* (BODY.PEEK[])
+         <<FALSE, SR(0, 2), TRUE>> }                           \* FETCH *:2 (BODY[])
     [] Profile = "t" ->
        { <<FALSE, S1(1), TRUE>>, <<TRUE, SR(5, 0), FALSE>>, <<FALSE, S1(0), TRUE>>,
          <<TRUE,  SR(4, 2), TRUE>>,                            \* UID FETCH 4:2 (BODY[])
@@ -331,7 +339,8 @@ CopyMenu ==
 
 MoveMenu ==
   CASE Profile = "q" ->
-       { <<FALSE, S1(0), "Box">> }                             \* MOVE * Box
+       { <<FALSE, S1(0), "Box">>,                              \* MOVE * Box
+         <<TRUE,  SR(1, 2), "Box">> }                          \* UID MOVE 1:2 Box
     [] Profile = "t" ->
        { <<FALSE, S1(0), "Box">>, <<TRUE, SR(1, 2), "Box">>,
          <<FALSE, SR(2, 0), "Box">>,                           \* MOVE 2:* Box
@@ -347,7 +356,7 @@ AppendMenu ==
          <<"Box", {"F", "K"}, 1>> }
     [] OTHER -> Boxes \X {{}, {"S"}, {"D", "F"}, {"K"}, {"K", "A", "T"}, {"R", "S"}} \X (0..2)
 
-SelectMenu == IF Profile = "q" THEN {"Box"} ELSE Boxes
+SelectMenu == Boxes
 
 Kinds == {"store", "fetch", "expunge", "uidexpunge", "copy", "move", "append", "close", "select"}
 KindEnabled(k) ==
@@ -391,6 +400,9 @@ Spec == Init /\ [][Next]_vars
 ---------------------------------------------------------------------------
 (* Internal sanity of the reference model (checked by TLC).                *)
 
+\* a step that executes a command (a Pick step of the two-level menu does not)
+IsCmd == ncmd' = ncmd + 1
+
 AllFlags == Sys \cup {"K"}
 TypeOK ==
   /\ \A b \in Boxes : /\ DOMAIN mb[b] \subseteq 1..MaxUid
@@ -420,11 +432,11 @@ UidsAscend ==
                       /\ \A u \in (DOMAIN mb'[b]) \ (DOMAIN mb[b]) : u >= nextuid[b] /\ u < nextuid'[b]]_vars
 
 \* a refused command changes nothing
-RefusedInert == [][last'.cond = "REFUSED" => UNCHANGED <<mb, nextuid, nextcid, sel>>]_vars
+RefusedInert == [][(IsCmd /\ last'.cond = "REFUSED") => UNCHANGED <<mb, nextuid, nextcid, sel>>]_vars
 
 \* MOVE == COPY ; STORE +FLAGS (\Deleted) on the same messages ; UID EXPUNGE of exactly those
 MoveIsCopyStoreExpunge ==
-  [][(last'.cmd = "move" /\ last'.cond = "OK") =>
+  [][(IsCmd /\ last'.cmd = "move" /\ last'.cond = "OK") =>
        LET A == last'.addr
            w1 == WCopy(W, sel, A, last'.dest)
            w2 == WStore(w1, sel, A, "add", {"D"})
@@ -434,9 +446,9 @@ MoveIsCopyStoreExpunge ==
 \* after EXPUNGE no \Deleted message is left, and only \Deleted ones were removed;
 \* UID EXPUNGE removes nothing outside its set
 ExpungeExact ==
-  [][/\ (last'.cmd = "expunge" => /\ DeletedIn(mb'[sel], DOMAIN mb'[sel]) = {}
+  [][/\ ((IsCmd /\ last'.cmd = "expunge") => /\ DeletedIn(mb'[sel], DOMAIN mb'[sel]) = {}
                                   /\ \A u \in (DOMAIN mb[sel]) \ DOMAIN mb'[sel] : "D" \in mb[sel][u].f)
-     /\ (last'.cmd = "uidexpunge" =>
+     /\ ((IsCmd /\ last'.cmd = "uidexpunge") =>
              /\ (DOMAIN mb[sel]) \ (DOMAIN mb'[sel]) \subseteq last'.addr
              /\ \A u \in (DOMAIN mb[sel]) \ DOMAIN mb'[sel] : "D" \in mb[sel][u].f
              /\ DeletedIn(mb'[sel], last'.addr) = {})]_vars
@@ -444,14 +456,14 @@ ExpungeExact ==
 \* FETCH with .PEEK, COPY and SELECT do not change any flag of an existing message;
 \* a non-PEEK FETCH adds \Seen to exactly the addressed messages
 FetchSeenExact ==
-  [][(last'.cmd = "fetch" /\ last'.cond = "OK") =>
+  [][(IsCmd /\ last'.cmd = "fetch" /\ last'.cond = "OK") =>
         \A u \in DOMAIN mb[sel] :
            \/ mb'[sel][u] = mb[sel][u]
            \/ u \in last'.addr /\ mb'[sel][u] = [mb[sel][u] EXCEPT !.f = @ \cup {"S"}]]_vars
 
 \* STORE touches exactly the addressed messages, and only permitted flags
 StoreExact ==
-  [][(last'.cmd = "store" /\ last'.cond = "OK") =>
+  [][(IsCmd /\ last'.cmd = "store" /\ last'.cond = "OK") =>
         /\ DOMAIN mb'[sel] = DOMAIN mb[sel]
         /\ \A u \in DOMAIN mb[sel] :
              /\ u \notin last'.addr => mb'[sel][u] = mb[sel][u]
